@@ -20,6 +20,11 @@ func vh_replicate_step() {
 	st := env.logs
 	peer := r.configurations.latest.Servers[1]
 	s := r.leaderState.replState[peer.ID]
+	// the replication routine may outlive this server's leadership for a moment: the server's own term may
+	// already be higher (it adopted a newer term in an RPC handler) while the routine still runs
+	laterTerm := vU64("L.laterTerm")
+	vAssume(laterTerm >= s.currentTerm && laterTerm < 1<<62)
+	r.currentTerm, env.stable.term = laterTerm, laterTerm
 	// the follower holds one slot iff it is a voter
 	s.failures = 0
 	nextOff := vChoose("nextOff", 0, w+1)
@@ -81,7 +86,7 @@ func vh_replicate_step() {
 	vAssert(nRPC == 1, "C12.repl.one-rpc-per-round")
 	a := sent
 	// C01.LEADER-TERM: the request carries the term of this leadership
-	vAssert(a.Term == s.currentTerm && a.Term == r.currentTerm, "C01.repl.request-carries-leader-term")
+	vAssert(a.Term == s.currentTerm, "C01.repl.request-carries-term-of-this-leadership")
 	vAssert(a.LeaderCommitIndex == r.commitIndex, "C05.repl.request-carries-commit-index")
 	// C04.LEADER-BUILD: strong well-formedness of the request
 	if preNext == 1 {
@@ -111,7 +116,7 @@ func vh_replicate_step() {
 		vCover("repl.rpc-error")
 		vAssert(s.nextIndex == preNext && postMatch == preMatch, "C05.repl.rpc-error-no-effect")
 		vAssert(s.failures == 1, "C12.repl.failure-counted")
-	} else if respTerm > a.Term {
+	} else if respTerm > s.currentTerm {
 		vCover("repl.stale-term")
 		vAssert(len(s.stepDown) == 1, "C01.repl.newer-term-steps-down")
 		vAssert(postMatch == preMatch && s.nextIndex == preNext, "C05.repl.stale-term-no-match")
@@ -158,6 +163,9 @@ func vh_send_snapshot() {
 	s := r.leaderState.replState[peer.ID]
 	s.failures = vU64("failures")
 	vAssume(s.failures < 1<<40)
+	laterTerm := vU64("L.laterTerm")
+	vAssume(laterTerm >= s.currentTerm && laterTerm < 1<<62)
+	r.currentTerm, env.stable.term = laterTerm, laterTerm
 	preNext := s.nextIndex
 	nSnap := vChoose("snapshots", 0, 2)
 	cfg := vConfig("snapcfg", 1, false)
@@ -203,7 +211,7 @@ func vh_send_snapshot() {
 	vAssert(nRPC == 1, "C12.snap.one-rpc")
 	m := env.snaps.metas[0] // List returns newest first
 	vAssert(sent.LastLogIndex == m.Index && sent.LastLogTerm == m.Term && sent.ConfigurationIndex == m.ConfigurationIndex && sent.Size == m.Size && sent.SnapshotVersion == m.Version, "C11.snap.ships-newest-snapshot-meta")
-	vAssert(sent.Term == s.currentTerm && sent.Term == r.currentTerm, "C01.snap.request-carries-leader-term")
+	vAssert(sent.Term == s.currentTerm, "C01.snap.request-carries-term-of-this-leadership")
 	if rpcFail {
 		vCover("snap.rpc-error")
 		vAssert(err != nil && !stop && s.nextIndex == preNext && postMatch == preMatch && s.failures == preFailures+1, "C12.snap.rpc-error-counted-no-effect")
@@ -241,13 +249,16 @@ func vh_heartbeat() {
 	vf.notifyCh = r.verifyCh
 	s.notify[vf] = struct{}{}
 	s.notifyCh <- struct{}{}
+	laterTerm := vU64("L.laterTerm")
+	vAssume(laterTerm >= s.currentTerm && laterTerm < 1<<62)
+	r.currentTerm, env.stable.term = laterTerm, laterTerm
 	vAssume(!s.lastContact.After(time.Now())) // contacts lie in the past
 	preContact := vTimeNs(s.lastContact)
 	respTerm, respOK, rpcFail := vU64("resp.term"), vBool("resp.success"), vBool("rpc.fail")
 	nRPC := 0
 	env.trans.onAppend = func(id ServerID, a *AppendEntriesRequest, resp *AppendEntriesResponse) error {
 		nRPC++
-		vAssert(id == peer.ID && a.Term == s.currentTerm && a.Term == r.currentTerm, "C01.heartbeat.carries-leader-term")
+		vAssert(id == peer.ID && a.Term == s.currentTerm, "C01.heartbeat.carries-term-of-this-leadership")
 		vAssert(len(a.Entries) == 0 && a.LeaderCommitIndex == 0 && a.PrevLogEntry == 0, "C05.heartbeat.carries-no-log-claims")
 		// a heartbeat skips the follower's log check (no previous entry), so it must not carry a commit index
 		vAssert(a.LeaderCommitIndex == 0, "C02.heartbeat.carries-no-commit-index")
